@@ -25,6 +25,8 @@ type env struct {
 	mu  sync.Mutex
 	ws  []*waiter
 	sig chan struct{}
+	// reorg events the detector has recorded in this behaviour (its DB file outlives restarts): "second/from/to"
+	rdEvents map[string]bool
 }
 
 func newEnv(c *chain) *env { return &env{c: c, sig: make(chan struct{}, 1)} }
